@@ -58,11 +58,22 @@ func (c *Ctx) censusRegion(entries []*ssa.Function, stop func(*ssa.Function) boo
 
 // runCensus files one obligation per PPO: discharged by a side condition, accepted by the triage table (whose
 // condition, when named, must hold), or a violation.
-func (c *Ctx) runCensus(rule string, fns []*ssa.Function, kinds map[string]bool, conditions map[string]bool) (n, discharged, accepted int) {
+func (c *Ctx) runCensus(rule string, fns []*ssa.Function, kinds map[string]bool, conditions map[string]bool, inherit ...string) (n, discharged, accepted int) {
 	tri := map[string]triageEntry{}
 	for _, e := range c.triage().Accepted {
 		if e.Property == c.R.Property {
 			tri[e.Key] = e
+		}
+		// entries of other properties' censuses (the same site reached from another entry point)
+		for _, pre := range inherit {
+			if strings.HasPrefix(e.Key, pre+"/") {
+				k := c.R.Property + "/" + rule + "/" + strings.TrimPrefix(e.Key, pre+"/")
+				if _, own := tri[k]; !own {
+					e2 := e
+					e2.Reason = "(" + pre + ") " + e.Reason
+					tri[k] = e2
+				}
+			}
 		}
 	}
 	seenKeys := map[string]bool{}
@@ -132,7 +143,7 @@ func (c *Ctx) runCensus(rule string, fns []*ssa.Function, kinds map[string]bool,
 				continue
 			}
 			c.R.Violate(rule, key, site, "panic-capable operation ("+p.Kind+" "+p.Desc+") in "+an.ShortName(p.Fn)+
-				" is reachable from the entry points and is neither discharged by a checked side condition nor listed with a reason")
+				" is reachable from the entry points and is neither discharged by a checked side condition nor listed with a reason"+whyNot(p.Why))
 		}
 	}
 	// stale triage entries are reported (a site that disappeared needs no entry) — informational only
@@ -147,4 +158,11 @@ func (c *Ctx) runCensus(rule string, fns []*ssa.Function, kinds map[string]bool,
 		c.R.Extra["stale_triage_entries_"+rule] = stale
 	}
 	return
+}
+
+func whyNot(w string) string {
+	if w == "" {
+		return ""
+	}
+	return " — " + w
 }
